@@ -443,5 +443,5 @@ impl CssDestination for AtMediaDest<'_> {
 }
 
 fn is_flat_rule(name: &str) -> bool {
-    name == "font-face" || name == "keyframes"
+    name == "font-face" || super::transform::is_keyframes(name)
 }
